@@ -31,7 +31,7 @@ def run(chk):
         chk.absorb(vlib.run_sharded(fast, 65536, chk.seed, chk.tier, ['--mode', 'bytes', '--stride', 1, '--fastthrow', 1], tag='c14f', timeout=3600), 'byte-strings-all-2^32(fast+guard-page)')
         chk.absorb(vlib.run_sharded(asan, 65536, chk.seed, chk.tier, ['--mode', 'bytes', '--stride', 31], tag='c14g'), 'byte-strings-strided(asan)')
     else:
-        chk.absorb(vlib.run_sharded(asan, 65536, chk.seed, chk.tier, ['--mode', 'bytes', '--stride', 251], tag='c14g'), 'byte-strings-strided(asan)')
+        chk.absorb(vlib.run_sharded(asan, 65536, chk.seed, chk.tier, ['--mode', 'bytes', '--stride', 509], tag='c14g'), 'byte-strings-strided(asan)')
     # complete blocks at the borders of every lead-byte / second-byte class (incl. all strings of length <= 1), under asan
     chk.absorb(vlib.run_sharded(asan, 54, chk.seed, chk.tier, ['--mode', 'bytesb'], tag='c14h'), 'byte-strings-complete-boundary-blocks(asan)')
     chk.assumptions = [
